@@ -61,6 +61,7 @@ type Ctx struct {
 	// MapIter is set by harness bodies around library calls whose map
 	// iteration starts are to be explored (see envmap.go).
 	mapOn   bool
+	mapCap  int
 	mapSeen int
 }
 
